@@ -151,6 +151,10 @@ def gen_stepper_source(rng, uid, nstage, full=False, resize=False):
             if resize and rng.random() < 0.7:
                 L.append('        _c04.resize_hook(dst, %d)' % k)
             L.append('')
+    if rng.random() < 0.3:
+        # a stepper that inherits all its stages (OutletStep(InletStep): pass)
+        L += ['', 'class %sD(%s):' % (name, name), '    pass', '']
+        name = name + 'D'
     text = '\n'.join(L) + '\n'
     text = text.replace('from checks import c04 as _c04',
                         'from checks import c04 as _c04\n'
